@@ -1,9 +1,16 @@
-// C14 / C29: the real arithmetic term constructors of ArithLogic (mkTimes with SimplifyConstTimes::constSimplify and
-// SimplifyConst::simplify, mkPlus, mkNeg, mkMinus, mkBinaryLeq/Geq/Lt/Gt, mkBinaryEq) return a term whose VALUE under an arbitrary
-// valuation of the variables equals the SMT-LIB operator applied to the values of the arguments -- or, for products only, end in
-// LANonLinearException.  Arguments: arbitrary nodes of a symbolic term universe (stu_arith.h node table behind the Logic accessors).
+// C14 / C29: the real arithmetic term constructors of ArithLogic -- mkTimes(vec&&) with SimplifyConst::simplify, simplifyConstOp and
+// SimplifyConstTimes::constSimplify, mkPlus, mkNeg, mkMinus, mkBinaryLeq/Geq/Lt/Gt (sumToNormalizedInequality), mkBinaryEq
+// (sumToNormalizedEquality) -- return a term whose VALUE under an arbitrary valuation of the variables equals the SMT-LIB operator
+// applied to the values of the arguments, or (products only) end in LANonLinearException.
+//
+// Term universe: the node table of stu_arith.h (Node/kinds/symbol numbering and its accessor cut points) extended by a value per node.
+// The STRUCTURE of the universe is concrete (a fixed set of 14 well-formed linear terms, see build_universe) and every argument tuple
+// over it is enumerated by concrete loops, so that CBMC's symbolic execution runs the real constructors like an interpreter; the
+// VALUATION of the variables is symbolic, i.e. each (universe, argument tuple) is decided for all valuations at once by the solver.
+// (A universe of symbolic SHAPE with symbolic argument choice was tried first: symbolic execution of one mkTimes call with one
+//  symbolic argument did not finish in 15 minutes, see CLAIM.json.)
 #ifndef STU_MAXN
-#define STU_MAXN 22
+#define STU_MAXN 44
 #endif
 #include "stu_arith.h"
 #include <new>
@@ -17,12 +24,11 @@ enum : uint32_t { SYM_TRUE = 5, SYM_FALSE = 6, SYM_NOT = 7, SYM_EQ = 8 };
 constexpr uint32_t SORT_BOOL = 0, SORT_INT = 7, SORT_REAL = 8;
 static int32_t val[MAXN];       // value of node i under the valuation sigma (Booleans 0/1)
 static bool isB[MAXN];          // node is a formula
-static bool badv[MAXN];         // value of the node left the range the harness can compute exactly (must never be RETURNED)
+static bool badv[MAXN];         // value of the node left the range the harness computes exactly (such a node must never be RETURNED)
 static bool bad_ref, bad_sym, overflow, other_exc;
-static int created, U;          // U = number of nodes of the initial universe
-static PTRef T_TRUE, T_FALSE;
+static int created, U, UA;      // U = nodes of the initial universe, UA = the arithmetic ones among them (0..UA-1)
 
-// a * b for |a| < 128, |b| < 2^20, written without a multiplier circuit (a full-width multiplier against the solver's does not scale)
+// a * b for |a| < 128, |b| < 2^20, written without a multiplier circuit (a full-width multiplier against the solver does not scale)
 static int32_t smul(int32_t a, int32_t b, bool & bad) {
     if (a <= -128 || a >= 128 || b <= -(1 << 20) || b >= (1 << 20)) { bad = true; return 0; }
     uint32_t ua = a < 0 ? 0u - (uint32_t)a : (uint32_t)a, ub = (uint32_t)b, r = 0;
@@ -35,21 +41,26 @@ static int32_t smul(int32_t a, int32_t b, bool & bad) {
     if (ua & 64) r += ub << 6;
     return (int32_t)(a < 0 ? 0u - r : r);
 }
-static Pterm * alloc_exact(int nargs) {   // exact object size per arity: reading an argument that does not exist is out of bounds
-    void * p = nargs == 0 ? malloc(sizeof(Pterm)) : nargs == 1 ? malloc(sizeof(Pterm) + 4) : nargs == 2 ? malloc(sizeof(Pterm) + 8)
-             : nargs == 3 ? malloc(sizeof(Pterm) + 12) : malloc(sizeof(Pterm) + 16);
-    return static_cast<Pterm *>(p);
-}
+// Pterm storage: one static row per node (header | id | sym | args[4]); unused argument slots hold a poison reference, so reading an
+// argument that does not exist and using it is reported by the accessors ("term reference outside the term table").
+// Shadow copies (sh_*) of symbol / arity / arguments serve the hash-consing lookups of the stubs.
+#define POISON 0xFFFFFF00u
+static uint32_t pstore[MAXN][3 + 4];
+static uint32_t sh_sym[MAXN], sh_a[MAXN][4]; static int sh_n[MAXN];
 // appends a node (caller guarantees room) and computes its value from its children by the SMT-LIB semantics of the operator
 static PTRef newNode(Kind k, uint32_t sym, int nargs, PTRef const * a) {
     int id = nnodes++;
     Node & n = nodes[id];
     n.kind = k; n.nargs = (uint8_t)nargs; n.num = nullptr; n.cval = 0;
-    n.pt = alloc_exact(nargs);
-    n.pt->header.type = 0; n.pt->header.has_extra = 0; n.pt->header.reloced = 0; n.pt->header.noscoping = 0; n.pt->header.size = nargs;
-    n.pt->id.x = id; n.pt->sym = SymRef{sym};
+    n.pt = reinterpret_cast<Pterm *>(pstore[id]);
+    pstore[id][0] = (uint32_t)nargs << 6; pstore[id][1] = (uint32_t)id; pstore[id][2] = sym;
+    sh_sym[id] = sym; sh_n[id] = nargs;
     bool bad = false; int32_t v = 0; bool b = false;
-    for (int i = 0; i < 4; i++) if (i < nargs) { n.pt->args[i] = a[i]; if (badv[a[i].x]) bad = true; }
+    for (int i = 0; i < 4; i++) {
+        uint32_t x = i < nargs ? a[i].x : POISON;
+        pstore[id][3 + i] = x; sh_a[id][i] = x;
+        if (i < nargs && badv[x]) bad = true;
+    }
     switch (k) {
     case K_PLUS: for (int i = 0; i < 4; i++) if (i < nargs) { if (isB[a[i].x]) bad_sym = true; v = (int32_t)((uint32_t)v + (uint32_t)val[a[i].x]); } break;
     case K_TIMES: v = 1; for (int i = 0; i < 4; i++) if (i < nargs) { if (isB[a[i].x]) bad_sym = true; v = smul(val[a[i].x], v, bad); } break;
@@ -62,21 +73,33 @@ static PTRef newNode(Kind k, uint32_t sym, int nargs, PTRef const * a) {
     val[id] = v; isB[id] = b; badv[id] = bad;
     return PTRef{(uint32_t)id};
 }
-static PTRef newConst(int32_t v) { PTRef r = mkConst(v); val[r.x] = v; isB[r.x] = false; badv[r.x] = false; return r; }
+static PTRef newConst(int32_t v) {        // small integer constant in word representation; every constant has its own symbol
+    PTRef r = newNode(K_CONST, SYM_CONST0 + nnodes, 0, nullptr);
+    Node & n = nodes[r.x];
+    n.cval = v; val[r.x] = v;
+    n.num = static_cast<FastRational *>(malloc(sizeof(FastRational)));
+    n.num->state = State::WORD_VALID; n.num->num = v; n.num->den = 1; n.num->mpq = nullptr;
+    return r;
+}
 static PTRef newVar(int i, int32_t lo, int32_t hi) {
     PTRef r = newNode(K_VAR, SYM_VAR0 + i, 0, nullptr);
     int32_t v = (int8_t)nondet_u8(); VASSUME(v >= lo && v <= hi); val[r.x] = v;
     return r;
 }
+static PTRef node2(Kind k, uint32_t sym, uint32_t a, uint32_t b) { PTRef x[2] = {PTRef{a}, PTRef{b}}; return newNode(k, sym, 2, x); }
+static PTRef node3(Kind k, uint32_t sym, uint32_t a, uint32_t b, uint32_t c) { PTRef x[3] = {PTRef{a}, PTRef{b}, PTRef{c}}; return newNode(k, sym, 3, x); }
 static bool ref_ok(PTRef r) { return r.x < (uint32_t)nnodes; }
 
 // ---------------------------------------------------------------- cut points (answered from the table)
+static bool boolSym(SymRef s) { return s.x == SYM_LEQ || (s.x >= SYM_TRUE && s.x <= SYM_EQ); }
 extern "C" {
 SRef stub_getSortRefTerm(void *, PTRef t) { if (!ref_ok(t)) { bad_ref = true; return SRef{SORT_INT}; } return SRef{isB[t.x] ? SORT_BOOL : SORT_INT}; }
-SRef stub_getSortRefSym(void *, SymRef s) { return SRef{(s.x == SYM_LEQ || (s.x >= SYM_TRUE && s.x <= SYM_EQ)) ? SORT_BOOL : SORT_INT}; }
-bool stub_yieldsSortInt(void *, SymRef s) { return !(s.x == SYM_LEQ || (s.x >= SYM_TRUE && s.x <= SYM_EQ)) && s.x < SYM_REAL0; }
+SRef stub_getSortRefSym(void *, SymRef s) { return SRef{boolSym(s) ? SORT_BOOL : SORT_INT}; }
+SRef stub_getUniqueArgSort(void *, SymRef s) { return SRef{s.x == SYM_NOT ? SORT_BOOL : SORT_INT}; }
+bool stub_yieldsSortInt(void *, SymRef s) { return !boolSym(s) && s.x < SYM_REAL0; }
 bool stub_false_ptref(void *, PTRef) { return false; }
 bool stub_false_sym(void *, SymRef) { return false; }
+bool stub_false(void *) { return false; }
 bool stub_hasSortBool(void *, PTRef t) { return ref_ok(t) && isB[t.x]; }
 // Logic::pp (only used for the text of LANonLinearException) and the exception's constructor (string concatenation): cut
 void stub_pp(std::string * out, void *, PTRef) { new (out) std::string(); }
@@ -92,16 +115,15 @@ PTRef stub_mkConstNumber(ArithLogic *, SRef, FastRational const & c) {
 }
 // Logic::mkFun: hash-consing lookup-or-create. The same (symbol, arguments) is the same node; a new node gets its value from its children.
 PTRef stub_mkFun(Logic *, SymRef s, vec<PTRef> && args) {
-    int n = args.size(); PTRef a[4] = {PTRef{0}, PTRef{0}, PTRef{0}, PTRef{0}};
+    int n = args.size(); PTRef a[4];
     if (n < 0 || n > 4) { overflow = true; return PTRef{0}; }
-    for (int i = 0; i < 4; i++) if (i < n) { a[i] = args[i]; if (!ref_ok(a[i])) { bad_ref = true; return PTRef{0}; } }
+    for (int i = 0; i < 4; i++) {
+        a[i] = i < n ? args[i] : PTRef{POISON};
+        if (i < n && !ref_ok(a[i])) { bad_ref = true; return PTRef{0}; }
+    }
     for (int j = 0; j < MAXN; j++) {
         if (j >= nnodes) break;
-        Pterm * p = nodes[j].pt;
-        if (p->sym.x != s.x || (int)nodes[j].nargs != n) continue;
-        bool same = true;
-        for (int i = 0; i < 4; i++) if (i < n && p->args[i].x != a[i].x) same = false;
-        if (same) return PTRef{(uint32_t)j};
+        if (sh_sym[j] == s.x && sh_n[j] == n && sh_a[j][0] == a[0].x && sh_a[j][1] == a[1].x && sh_a[j][2] == a[2].x && sh_a[j][3] == a[3].x) return PTRef{(uint32_t)j};
     }
     Kind k = s.x == SYM_PLUS ? K_PLUS : s.x == SYM_TIMES ? K_TIMES : s.x == SYM_LEQ ? K_LEQ : s.x == SYM_EQ ? K_EQ : s.x == SYM_NOT ? K_NOT : K_OTHER;
     if (k == K_OTHER || n == 0) { bad_sym = true; return PTRef{0}; }     // a leaf symbol that is not in the table, or an unknown operator
@@ -109,14 +131,10 @@ PTRef stub_mkFun(Logic *, SymRef s, vec<PTRef> && args) {
     created++;
     return newNode(k, s.x, n, a);
 }
-// minisat vec<T>::capacity replaced by one fixed-capacity allocation (never reallocated): symbolic-size realloc does not scale
-#define VCAP 8
-void stub_cap_ptref(vec<PTRef> * v, int m) { if (v->cap >= m) return; if (m > VCAP) { overflow = true; return; } if (v->data == nullptr) v->data = (PTRef *)malloc(VCAP * sizeof(PTRef)); v->cap = VCAP; }
-void stub_cap_int(vec<int> * v, int m) { if (v->cap >= m) return; if (m > VCAP) { overflow = true; return; } if (v->data == nullptr) v->data = (int *)malloc(VCAP * sizeof(int)); v->cap = VCAP; }
 bool stub_isUF(void *, PTRef) { return false; }
-void stub_termSort(ArithLogic * l, vec<PTRef> & v) { l->ArithLogic::termSort(v); }
+void stub_termSort(ArithLogic * l, vec<PTRef> & v) { l->ArithLogic::termSort(v); }            // virtual slot -> the real ArithLogic::termSort
 #ifdef ARITH_CMP
-PTRef stub_vmkBinaryEq(ArithLogic * l, PTRef a, PTRef b) { return l->ArithLogic::mkBinaryEq(a, b); }
+PTRef stub_vmkBinaryEq(ArithLogic * l, PTRef a, PTRef b) { return l->ArithLogic::mkBinaryEq(a, b); }   // virtual slot -> the real ArithLogic::mkBinaryEq
 #endif
 }
 template <class F> static int vslot(F pmf) {   // vtable slot of a virtual member function (Itanium ABI pointer-to-member encoding)
@@ -128,65 +146,60 @@ static void * fake_vt[128];
 union RawLogic { ArithLogic l; RawLogic() {} ~RawLogic() {} };
 static RawLogic rawl;
 
-static uint32_t pick(uint32_t below) { uint32_t c = nondet_u8(); VASSUME(c < below); return c; }
-
-// ---------------------------------------------------------------- the symbolic universe
-// Fixed leaves, symbolic compounds:
-//   0: 0   1: 1   2: -1   3: x   4: y   5: constant c (symbolic, |c| in 2..3)
-//   6: P  = product of a constant in {-1, c} and a variable in {x, y}, in either argument order      (what mkNeg / mkPlus / mkTimes build)
-//   7,8: S1, S2 = sums of 2..3 arguments, each argument a variable, the product P or a constant, at most one constant and it is not 0
-// Invariants assumed (each is what the real constructors establish):
+// ---------------------------------------------------------------- the universe
+// Arithmetic nodes (UA = 14), every one a term the real constructors build (linear normal forms):
+//   0: 0    1: 1    2: -1    3: x    4: y    5: 2    6: -3
+//   7: (* 2 x)   constant first (mkPlus / mkTimes)        8: (* y -1)  variable first (mkNeg)
+//   9: (+ x 1)   10: (+ y 1)   11: (+ x y)   12: (+ (* 2 x) (* y -1) -3)   13: (+ 2 (* y -1))
+// With -DARITH_CMP additionally 14: true, 15: false (results of the comparisons).
+// Invariants this universe satisfies (each is what the real constructors establish):
 //   A1 numeric constants are hash-consed: one node per value; term_Int_ZERO/ONE/MINUSONE are nodes 0/1/2
-//   A2 a product node has exactly one constant (not 0, not 1) and one variable; a sum node has no sum, no 0 and at most one constant among its arguments
-//   A3 hash-consing: no two nodes with the same symbol and argument list
-//   A4 value(node) = operator(value(children)); variables have arbitrary values in [-3,3]
-#ifndef NSUMS
-#define NSUMS 2
-#endif
-static void sum_node(int below) {
-    int n = 2 + (nondet_u8() & 1);
-    PTRef a[4]; int nconst = 0;
-    for (int i = 0; i < 3; i++) {
-        a[i] = PTRef{pick(below)};
-        if (i < n) {
-            VASSUME(a[i].x != 0 && nodes[a[i].x].kind != K_PLUS);
-            if (nodes[a[i].x].kind == K_CONST) nconst++;
-        }
-    }
-    VASSUME(nconst <= 1);
-    if (n == 2) { PTRef b[2] = {a[0], a[1]}; newNode(K_PLUS, SYM_PLUS, 2, b); } else newNode(K_PLUS, SYM_PLUS, 3, a);
-}
+//   A2 a product node is (constant, variable) or (variable, constant), constant not 0 or 1; a sum has >= 2 arguments, no sum, no 0, at most
+//      one constant and each variable at most once among its arguments
+//   A3 hash-consing: no two nodes with the same symbol and argument list; every variable / constant has its own symbol
+//   A4 value(node) = operator(value(children)); x, y arbitrary in [-7,7]
+enum : uint32_t { N_ZERO = 0, N_ONE, N_MONE, N_X, N_Y, N_2, N_M3, N_2X, N_NEGY, N_XP1, N_YP1, N_XPY, N_S3, N_2MY, N_ARITH };
 static void build_universe() {
     init_logic(&rawl.l);
     bad_ref = bad_sym = overflow = other_exc = false; created = 0;
     newConst(0); newConst(1); newConst(-1);
-    newVar(0, -3, 3); newVar(1, -3, 3);
-    int32_t c = (int8_t)nondet_u8(); VASSUME(c == 2 || c == -2 || c == 3 || c == -3);
-    newConst(c);
-    { PTRef k = nondet_bool() ? PTRef{2} : PTRef{5}; PTRef v = nondet_bool() ? PTRef{3} : PTRef{4};
-      PTRef a[2]; if (nondet_bool()) { a[0] = k; a[1] = v; } else { a[0] = v; a[1] = k; }
-      newNode(K_TIMES, SYM_TIMES, 2, a); }
-    for (int s = 0; s < NSUMS; s++) sum_node(7 + s);
-#if NSUMS >= 2
-    {   // A3 for the two sums
-        Pterm * p = nodes[7].pt, * q = nodes[8].pt;
-        bool same = nodes[7].nargs == nodes[8].nargs && p->args[0].x == q->args[0].x && p->args[1].x == q->args[1].x && (nodes[7].nargs < 3 || p->args[2].x == q->args[2].x);
-        VASSUME(!same);
-    }
-#endif
-    U = nnodes;
+    newVar(0, -7, 7); newVar(1, -7, 7);
+    newConst(2); newConst(-3);
+    node2(K_TIMES, SYM_TIMES, N_2, N_X);
+    node2(K_TIMES, SYM_TIMES, N_Y, N_MONE);
+    node2(K_PLUS, SYM_PLUS, N_X, N_ONE);
+    node2(K_PLUS, SYM_PLUS, N_Y, N_ONE);
+    node2(K_PLUS, SYM_PLUS, N_X, N_Y);
+    node3(K_PLUS, SYM_PLUS, N_2X, N_NEGY, N_M3);
+    node2(K_PLUS, SYM_PLUS, N_2, N_NEGY);
+    UA = nnodes;
     L->sort_INT = SRef{SORT_INT}; L->sort_REAL = SRef{SORT_REAL}; L->sort_BOOL = SRef{SORT_BOOL};
-    L->term_Int_ZERO = PTRef{0}; L->term_Int_ONE = PTRef{1}; L->term_Int_MINUSONE = PTRef{2};
+    L->term_Int_ZERO = PTRef{N_ZERO}; L->term_Int_ONE = PTRef{N_ONE}; L->term_Int_MINUSONE = PTRef{N_MONE};
     L->term_Real_ZERO = PTRef{1000}; L->term_Real_ONE = PTRef{1001}; L->term_Real_MINUSONE = PTRef{1002};   // no node has these ids
-    L->sym_Int_ZERO = nodes[0].pt->sym; L->sym_Int_ONE = nodes[1].pt->sym; L->sym_Real_ZERO = SymRef{SYM_REAL0 + 10}; L->sym_Real_ONE = SymRef{SYM_REAL0 + 11};
+    L->sym_Int_ZERO = SymRef{sh_sym[N_ZERO]}; L->sym_Int_ONE = SymRef{sh_sym[N_ONE]}; L->sym_Real_ZERO = SymRef{SYM_REAL0 + 10}; L->sym_Real_ONE = SymRef{SYM_REAL0 + 11};
     L->sym_Int_NEG = SymRef{SYM_REAL0 + 12}; L->sym_Real_NEG = SymRef{SYM_REAL0 + 13}; L->sym_Int_MINUS = SymRef{SYM_REAL0 + 14}; L->sym_Real_MINUS = SymRef{SYM_REAL0 + 15};
     fake_vt[vslot(static_cast<bool (Logic::*)(PTRef) const>(&Logic::isUF))] = (void *)&stub_isUF;
     fake_vt[vslot(&Logic::termSort)] = (void *)&stub_termSort;
 #ifdef ARITH_CMP
     fake_vt[vslot(static_cast<PTRef (Logic::*)(PTRef, PTRef)>(&Logic::mkBinaryEq))] = (void *)&stub_vmkBinaryEq;
+    PTRef t = newNode(K_OTHER, SYM_TRUE, 0, nullptr); val[t.x] = 1; isB[t.x] = true;
+    PTRef f = newNode(K_OTHER, SYM_FALSE, 0, nullptr); val[f.x] = 0; isB[f.x] = true;
+    L->term_TRUE = t; L->term_FALSE = f; L->sym_TRUE = SymRef{SYM_TRUE}; L->sym_FALSE = SymRef{SYM_FALSE}; L->sym_NOT = SymRef{SYM_NOT};
+    L->sym_Int_LEQ = SymRef{SYM_LEQ}; L->sym_Int_EQ = SymRef{SYM_EQ};
+    // sortToEquality: a real minisat Map laid out by hand (1 bucket, 1 entry: Int -> =); Map::operator[] stays real
+    typedef Map<SRef, SymRef, SRefHash> SMap;
+    static SMap::Pair pEq; static uint64_t vEq[2];
+    pEq.key = SRef{SORT_INT}; pEq.data = SymRef{SYM_EQ};
+    vec<SMap::Pair> * be = reinterpret_cast<vec<SMap::Pair> *>(vEq);
+    be->data = &pEq; be->sz = 1; be->cap = 1;
+    L->sortToEquality.table = be; L->sortToEquality.cap = 1; L->sortToEquality.size = 1;
 #endif
     *reinterpret_cast<void ***>(L) = fake_vt;
+    U = nnodes;
 }
+static void reset_run() { nnodes = U; bad_ref = bad_sym = overflow = other_exc = false; created = 0; }
+static bool isConstNode(PTRef a) { return nodes[a.x].kind == K_CONST; }
+static bool isSumNode(PTRef a) { return nodes[a.x].kind == K_PLUS; }
 
 // ---------------------------------------------------------------- checks
 static void check_returned(PTRef r, int32_t expected, bool expectBool) {
@@ -196,15 +209,12 @@ static void check_returned(PTRef r, int32_t expected, bool expectBool) {
         VASSERT(!badv[r.x], "harness: the value of the returned term stayed in the exactly computed range");
         VASSERT(isB[r.x] == expectBool, "result has the sort of the operator");
         VASSERT(val[r.x] == expected, "value(result) == operator(values of the arguments) under the valuation");
+        if ((int)r.x < U) { VWITNESS("returned-existing-term"); } else { VWITNESS("returned-new-term"); }
     }
-    VWITNESS("returned");
-    if ((int)r.x < U) { VWITNESS("returned-existing-term"); } else { VWITNESS("returned-new-term"); }
 }
-static bool isConstNode(PTRef a) { return nodes[a.x].kind == K_CONST; }
 
-template <int N> static void run_times() {
-    build_universe();
-    PTRef a[3]; for (int i = 0; i < 3; i++) a[i] = PTRef{pick(U)};
+template <int N> static void times_tuple(PTRef const * a) {
+    reset_run();
     bool bad = false; int32_t e = 1; int nonconst = 0;
     for (int i = 0; i < N; i++) { e = smul(val[a[i].x], e, bad); if (!isConstNode(a[i])) nonconst++; }
     VASSERT(!bad, "harness: expected product within the computed range");
@@ -214,38 +224,104 @@ template <int N> static void run_times() {
     catch (LANonLinearException const &) { nonlinear = true; }
     catch (...) { other_exc = true; }
     VASSERT(!other_exc, "no exception other than LANonLinearException");
+    bool zeroFactor = false; for (int i = 0; i < N; i++) if (a[i].x == N_ZERO) zeroFactor = true;
     if (nonlinear) {
         VASSERT(nonconst >= 2, "a product with at most one non-constant factor is linear and is not rejected");
         VWITNESS("rejected-as-nonlinear");
-        if (nodes[a[0].x].kind == K_PLUS && nodes[a[1].x].kind == K_PLUS) { VWITNESS("rejected-product-of-two-sums"); }
+        int sums = 0; for (int i = 0; i < N; i++) if (isSumNode(a[i])) sums++;
+        if (sums >= 2 && nonconst == 2) { VWITNESS("rejected-constant-times-two-sums"); }
     } else if (!other_exc) {
         check_returned(r, e, false);
-        if (nonconst >= 2) { VWITNESS("returned-with-two-nonconstant-factors"); }   // e.g. (* x y 0)
+        // C29: that a product which genuinely depends on two non-constant factors is never silently returned as a linear term
+        // follows from the value assertion above (a linear term differs from the product under some valuation in [-7,7]^2)
+        if (nonconst >= 2 && zeroFactor) { VWITNESS("returned-zero-for-nonlinear-product-with-zero-factor"); }
         if (ref_ok(r) && nodes[r.x].kind == K_PLUS && (int)r.x >= U) { VWITNESS("constant-distributed-over-sum"); }
-        if (N == 3 && nonconst == 1 && isConstNode(a[0]) && isConstNode(a[1]) && a[0].x >= 2 && a[1].x >= 2) { VWITNESS("constants-folded"); }
+        if (ref_ok(r) && isConstNode(r) && (int)r.x >= U) { VWITNESS("constants-folded-to-new-constant"); }
     }
 }
-extern "C" void h_mkTimes2() { run_times<2>(); }
-extern "C" void h_mkTimes3() { run_times<3>(); }
-
-template <int N> static void run_plus(bool minus) {
+// all pairs
+extern "C" void h_mkTimes2() {
     build_universe();
-    PTRef a[3]; for (int i = 0; i < 3; i++) a[i] = PTRef{pick(U)};
+    for (int i = 0; i < N_ARITH; i++) for (int j = 0; j < N_ARITH; j++) { PTRef a[2] = {PTRef{(uint32_t)i}, PTRef{(uint32_t)j}}; times_tuple<2>(a); }
+}
+// all triples with a given first factor
+template <int A0> static void times3() {
+    build_universe();
+    for (int i = 0; i < N_ARITH; i++) for (int j = 0; j < N_ARITH; j++) { PTRef a[3] = {PTRef{(uint32_t)A0}, PTRef{(uint32_t)i}, PTRef{(uint32_t)j}}; times_tuple<3>(a); }
+}
+#define T3(k) extern "C" void h_mkTimes3_##k() { times3<k>(); }
+T3(0) T3(1) T3(2) T3(3) T3(4) T3(5) T3(6) T3(7) T3(8) T3(9) T3(10) T3(11) T3(12) T3(13)
+// the defect repaired by ce45400 as a single tuple: (* 2 (+ x 1) (+ y 1)), in every argument order
+extern "C" void h_mkTimes3_two_sums() {
+    build_universe();
+    static const uint32_t p[6][3] = {{N_2, N_XP1, N_YP1}, {N_2, N_YP1, N_XP1}, {N_XP1, N_2, N_YP1}, {N_XP1, N_YP1, N_2}, {N_YP1, N_XP1, N_2}, {N_YP1, N_2, N_XP1}};
+    for (int k = 0; k < 6; k++) { PTRef a[3] = {PTRef{p[k][0]}, PTRef{p[k][1]}, PTRef{p[k][2]}}; times_tuple<3>(a); }
+}
+
+enum Op { O_PLUS, O_MINUS, O_LEQ, O_GEQ, O_LT, O_GT, O_EQ };
+template <int N> static void sum_tuple(Op op, PTRef const * a) {
+    reset_run();
     int32_t e = val[a[0].x];
-    for (int i = 1; i < N; i++) e = minus ? e - val[a[i].x] : e + val[a[i].x];
-    if (minus && N == 1) e = -e;
+    for (int i = 1; i < N; i++) e = op == O_MINUS ? e - val[a[i].x] : e + val[a[i].x];
+    if (op == O_MINUS && N == 1) e = -e;
     vec<PTRef> args; for (int i = 0; i < N; i++) args.push(a[i]);
     PTRef r = PTRef_Undef;
-    try { r = minus ? L->mkMinus(std::move(args)) : L->mkPlus(std::move(args)); }
+    try { r = op == O_MINUS ? L->mkMinus(std::move(args)) : L->mkPlus(std::move(args)); }
     catch (...) { other_exc = true; }
     VASSERT(!other_exc, "sum / difference / negation never throws");
     if (!other_exc) {
         check_returned(r, e, false);
         if (ref_ok(r) && isConstNode(r)) { VWITNESS("folded-to-constant"); }
-        if (ref_ok(r) && nodes[r.x].kind == K_PLUS && (int)r.x >= U) { VWITNESS("new-sum"); }
+        if (ref_ok(r) && isSumNode(r) && (int)r.x >= U) { VWITNESS("new-sum"); }
     }
 }
-extern "C" void h_mkPlus2() { run_plus<2>(false); }
-extern "C" void h_mkPlus3() { run_plus<3>(false); }
-extern "C" void h_mkNeg() { run_plus<1>(true); }
-extern "C" void h_mkMinus2() { run_plus<2>(true); }
+extern "C" void h_mkPlus2() {
+    build_universe();
+    for (int i = 0; i < N_ARITH; i++) for (int j = 0; j < N_ARITH; j++) { PTRef a[2] = {PTRef{(uint32_t)i}, PTRef{(uint32_t)j}}; sum_tuple<2>(O_PLUS, a); }
+}
+extern "C" void h_mkMinus2() {
+    build_universe();
+    for (int i = 0; i < N_ARITH; i++) for (int j = 0; j < N_ARITH; j++) { PTRef a[2] = {PTRef{(uint32_t)i}, PTRef{(uint32_t)j}}; sum_tuple<2>(O_MINUS, a); }
+}
+extern "C" void h_mkNeg() {
+    build_universe();
+    for (int i = 0; i < N_ARITH; i++) { PTRef a[1] = {PTRef{(uint32_t)i}}; sum_tuple<1>(O_MINUS, a); }
+}
+template <int A0> static void plus3() {
+    build_universe();
+    for (int i = 0; i < N_ARITH; i++) for (int j = 0; j < N_ARITH; j++) { PTRef a[3] = {PTRef{(uint32_t)A0}, PTRef{(uint32_t)i}, PTRef{(uint32_t)j}}; sum_tuple<3>(O_PLUS, a); }
+}
+#define P3(k) extern "C" void h_mkPlus3_##k() { plus3<k>(); }
+P3(0) P3(1) P3(2) P3(3) P3(4) P3(5) P3(6) P3(7) P3(8) P3(9) P3(10) P3(11) P3(12) P3(13)
+
+#ifdef ARITH_CMP
+static void cmp_pair(Op op, PTRef a, PTRef b) {
+    reset_run();
+    int32_t x = val[a.x], y = val[b.x];
+    bool e = op == O_LEQ ? x <= y : op == O_GEQ ? x >= y : op == O_LT ? x < y : op == O_GT ? x > y : x == y;
+    PTRef r = PTRef_Undef;
+    try {
+        r = op == O_LEQ ? L->mkBinaryLeq(a, b) : op == O_GEQ ? L->mkBinaryGeq(a, b) : op == O_LT ? L->mkBinaryLt(a, b) : op == O_GT ? L->mkBinaryGt(a, b) : L->ArithLogic::mkBinaryEq(a, b);
+    } catch (...) { other_exc = true; }
+    VASSERT(!other_exc, "a comparison of two linear terms never throws");
+    if (!other_exc) {
+        check_returned(r, e, true);
+        if (ref_ok(r) && (nodes[r.x].kind == K_LEQ || nodes[r.x].kind == K_EQ || nodes[r.x].kind == K_NOT)) { VWITNESS("atom-built"); }
+        if (ref_ok(r) && (int)r.x < U && (int)r.x >= UA) { VWITNESS("decided-to-true-or-false"); }
+    }
+}
+template <int LO, int HI> static void cmp_all(Op op) {
+    build_universe();
+    for (int i = LO; i < HI; i++) for (int j = 0; j < N_ARITH; j++) cmp_pair(op, PTRef{(uint32_t)i}, PTRef{(uint32_t)j});
+}
+extern "C" void h_mkLeq_a() { cmp_all<0, 7>(O_LEQ); }
+extern "C" void h_mkLeq_b() { cmp_all<7, 14>(O_LEQ); }
+extern "C" void h_mkGeq_a() { cmp_all<0, 7>(O_GEQ); }
+extern "C" void h_mkGeq_b() { cmp_all<7, 14>(O_GEQ); }
+extern "C" void h_mkLt_a() { cmp_all<0, 7>(O_LT); }
+extern "C" void h_mkLt_b() { cmp_all<7, 14>(O_LT); }
+extern "C" void h_mkGt_a() { cmp_all<0, 7>(O_GT); }
+extern "C" void h_mkGt_b() { cmp_all<7, 14>(O_GT); }
+extern "C" void h_mkEq_a() { cmp_all<0, 7>(O_EQ); }
+extern "C" void h_mkEq_b() { cmp_all<7, 14>(O_EQ); }
+#endif
